@@ -530,6 +530,29 @@ fn oracle_c02(out: &mut RunOut, model: &Model, raw: &Raw) {
                             Some(locs) if !locs.is_empty() => {
                                 if !(locs[0].0 == *file && locs[0].1 == t.line) {
                                     out.violate("defname-references-other-fixture", format!("references on the name of {} at {}:{}:{} start with {:?}", model.defs[me].key(), file, t.line, col, locs[0]));
+                                } else if col == t.start {
+                                    // the whole set: every usage the model binds to this definition (unambiguously),
+                                    // except usages on the definition's own line (the handler folds those into the declaration)
+                                    let mut want: BTreeSet<(String, usize, usize)> = BTreeSet::new();
+                                    let mut ambiguous = false;
+                                    for (uf, ut) in model.usage_tokens() {
+                                        if !raw.cached.contains(&uf) {
+                                            continue;
+                                        }
+                                        let ex = if ut.kind == TokKind::FixtureParam { model.enclosing_fixture(&uf, ut.line, &ut.in_fixture).filter(|i| model.defs[*i].name == ut.name) } else { None };
+                                        let e = model.resolve(&uf, &ut.name, ex);
+                                        if e.accept.contains(&me) {
+                                            if e.accept.len() > 1 || e.none_ok {
+                                                ambiguous = true;
+                                            } else if !(uf == *file && ut.line == t.line) {
+                                                want.insert((uf.clone(), ut.line, ut.start));
+                                            }
+                                        }
+                                    }
+                                    let got: BTreeSet<(String, usize, usize)> = locs.iter().skip(1).map(|l| (l.0.clone(), l.1, l.2)).collect();
+                                    if !ambiguous && got != want {
+                                        out.violate("defname-references-wrong-set", format!("references on the name of {}: handler lists {:?}, the usages bound to it are {:?}", model.defs[me].key(), got, want));
+                                    }
                                 }
                             }
                             _ => out.violate("defname-references-empty", format!("references on the name of {} at {}:{}:{} returned nothing", model.defs[me].key(), file, t.line, col)),
